@@ -396,7 +396,7 @@ def scenario(rng, kind=None):
     parameters); every one ends with a complete teardown and the leak check"""
     r = rng
     kind = kind or r.choice(['pill_batch_dereg', 'paused_flush', 'oneshot_stop', 'replace_inflight', 'stash_slices', 'tb_reconf',
-                             'tick_eval', 'tb_batch', 'errno_batch', 'dup_refused', 'far_timers', 'refuse_self'])
+                             'tick_eval', 'tb_batch', 'errno_batch', 'dup_refused', 'far_timers', 'refuse_self', 'stash_prio'])
     L = ['ctx_reg %d' % r.randrange(2)]
     af = lambda: r.randrange(2)
     if kind == 'pill_batch_dereg':
@@ -444,6 +444,12 @@ def scenario(rng, kind=None):
         for _ in range(r.randrange(1, 4)):
             L += ['unstash h0 %d' % r.choice([0, 1, 1, 2, 9]), 'ret 1']
         L += [r.choice(['stop h0', 'dereg h0', 'srclen h0']), 'ret 1']
+    elif kind == 'stash_prio':
+        # a handler tries to stash events of every priority: descriptor events (always high), timers and messages
+        fl = r.choice(['-', '-', 'l', 'h', 'o'])
+        L += ['reg h0 A - -', 'start h0', 'reg_fd h0 f0 %s u1' % fl, 'reg_tmr h0 1 %s u2' % r.choice(['-', 'l', 'h', 'o']),
+              'sub h0 ta - %s u3' % r.choice(['0', '0', '1']), 'pub h0 ta p1 0', 'make_ready f0', 'dispatch', 'dispatch']
+        L += ['stash h0 0', 'stash h0 1', 'ret 1', 'dispatch', 'stash h0 0', 'ret 1', 'dispatch', 'stash h0 0', 'ret 1', 'unstash h0 %d' % r.choice([1, 2, 9]), 'ret 1']
     elif kind == 'tb_reconf':
         # a bucket is configured, drained, reconfigured (rates that share low bits), stopped, restarted
         L += ['reg h0 A - -', 'tb h0 %d %d' % (r.choice([1, 65536, 131072, 10 ** 9]), r.randrange(1, 4)), 'start h0']
